@@ -35,6 +35,11 @@ def cases(tier, seed, PROP):
         # every record in it must still decode
         for k in range(30 if tier == 'quick' else 300):
             yield {'stratum': 'non-ascii-if-accepted', 'index': k, 'kind': 'nonascii'}
+    if PROP == 'C04':
+        # value lists whose elements have no common representation code (text mixed with numbers; all text, one of which reads
+        # as a number): refused, or -- if a file is written -- every record in it must still decode
+        for k in range(30 if tier == 'quick' else 300):
+            yield {'stratum': 'values-of-mixed-kinds-if-accepted', 'index': k, 'kind': 'mixedkinds'}
     if PROP in ('C04', 'C09'):
         # forms of the set name: none, empty text, text; and a set given (another) name after its objects were added
         for k in range(40 if tier == 'quick' else 600):
@@ -134,6 +139,18 @@ def _build_spec(case, PROP, r):
             sp['ops'].append({'op': 'comment', 'name': 'CM-NA', 'attrs': {'text': ['ascii', txt]}})
         else:
             sp['ops'].append({'op': 'zone', 'name': 'Z-NA', 'set_name': 'SET-' + txt, 'attrs': {}})
+        return sp
+    if k == 'mixedkinds':
+        sp = metagen.meta_spec(r, avoid=avoid, n_objects=r.choice([2, 5]), later_p=0.0)
+        vals = r.choice([['NEAR', 'FAR', '10'], ['12', 'N/A'], [1, 'a'], ['a', 2.5, 'b'], ['7', '8.5', 'x'], [True, 'yes'], ['1e3', 4]])
+        route = r.choice(['kw', 'later'])
+        t, kw = r.choice([('axis', 'coordinates'), ('parameter', 'values'), ('parameter', 'values')])
+        if route == 'kw':
+            sp['ops'].append({'op': t, 'name': 'MIXED-KINDS', 'attrs': {kw: vals}})
+        else:
+            sp['ops'].append({'op': t, 'name': 'MIXED-KINDS', 'attrs': {}})
+            sp['ops'].append({'op': 'assign', 'target': len(sp['ops']) - 1, 'target_op': t, 'kw': kw, 'part': 'value', 'value': vals})
+        sp['ops'].append({'op': 'zone', 'name': 'AFTER-MIXED', 'attrs': {'description': 'an object written after it'}})
         return sp
     if k == 'foreign-ref':
         sp = gen.base_spec(r.choice([512, 8192]), lfs=[{'fh_id': 'LF-A'}, {'fh_id': 'LF-B'}])
